@@ -6,7 +6,7 @@ From Coq Require Import Strings.Byte NArith ZArith List.
 From Coq Require Import Strings.String.
 Import ListNotations.
 Local Open Scope list_scope.
-From LLIR Require Import Lib.Bytes Lib.Radix Model.Natsort Model.Assemble Model.Writer Gen.Enums Proofs.EnumProofs Model.IntLit Model.Enc Model.Types Model.TypeString Model.Gep.
+From LLIR Require Import Lib.Bytes Lib.Radix Model.Natsort Model.Assemble Model.Writer Gen.Enums Proofs.EnumProofs Model.IntLit Model.Enc Model.Types Model.TypeString Model.Gep Model.ResultType.
 
 Definition byte_of_N_total (n : N) : byte := match Byte.of_N n with Some b => b | None => x00 end.
 (* C19: run the chunks against a writer failing after k bytes: (size, failed?, delivered, calls) *)
@@ -74,6 +74,10 @@ Definition gep_inst := gep_via classify_ir_inst.
 Definition gep_parse := gep_via classify_asm_inst.
 Definition gep_expr := gep_via (fun f => match f with IConst c => classify_ir_expr c | IValue _ => Gep.Panic end).
 Definition mk_index (h : bool) (v : Z) (l : N) : index := {| has_val := h; val := v; vector_len := l |}.
+(* C06 *)
+Definition rt_out (o : ResultType.outcome ty) : option ty := match o with ResultType.Ok t => Some t | ResultType.Panic => None end.
+Definition c06_ir (bodies : list (bytes * list ty)) (s : shape) : option ty := rt_out (ir_type (gep_env bodies) s).
+Definition c06_asm (bodies : list (bytes * list ty)) (s : shape) : option ty := rt_out (asm_type (gep_env bodies) s).
 Definition sort_ids (l : list Z) : list Z := isort Z.ltb l.
 
 Extraction "model.ml" byte_of_N_total Byte.to_N
@@ -82,4 +86,4 @@ Extraction "model.ml" byte_of_N_total Byte.to_N
   Enc.global_name Enc.local_name Enc.label_name Enc.type_name Enc.comdat_name Enc.metadata_name Enc.escape_ident Enc.escape_string Enc.quote Enc.unescape
   Enc.global_id Enc.local_id Enc.label_id c11_dec_global c11_dec_local c11_dec_label c11_dec_type c11_dec_comdat c11_dec_metadata
   TypeString.ty_string TypeString.equal_go
-  gep_result gep_inst gep_parse gep_expr mk_index.
+  gep_result gep_inst gep_parse gep_expr mk_index c06_ir c06_asm.
